@@ -100,7 +100,7 @@ typedef struct {
 	unsigned sect, opt;             /* name flags */
 	int maxdepth;
 	int huge;                       /* values > 65535 generated */
-	int val250, val255, longname;
+	int val250, val255, longname, comchar;
 	size_t nodes, sections, options, depth;
 } gen;
 
@@ -193,6 +193,8 @@ static void gen_value(vf_rng *r, gen *g, tnode *t)
 		} else {
 			if (is_format_char(f, c)) c = 'v';
 			if (c == ' ' && (!i || i + 1 == n)) c = 'w';
+			/* "=f# ohne namen" (config.txt): no comment without a blank in front of it */
+			if (i && b.d[i - 1] != ' ' && c != ' ' && vf_chance(r, 1, 40)) { c = f->com[vf_below(r, (uint32_t) strlen(f->com))]; g->comchar++; }
 		}
 		b_put(&b, c);
 	}
@@ -549,7 +551,7 @@ static void check_format(const format *f)
 	vf_count("monitor:format-fields", 1);
 }
 
-uint64_t vf_cases(void) { return vf_thorough ? 1000000 : 60000; }
+uint64_t vf_cases(void) { return vf_thorough ? 2000000 : 150000; }
 
 void vf_case(uint64_t idx, vf_rng *r)
 {
@@ -649,6 +651,7 @@ void vf_case(uint64_t idx, vf_rng *r)
 	if (g.val250) vf_count("tree:with-value-250..254", 1);
 	if (g.val255) vf_count("tree:with-value-255..260", 1);
 	if (g.huge) vf_count("tree:with-value-65530..65540", 1);
+	if (g.comchar) vf_count("tree:comment-char-inside-plain-value", 1);
 	if (g.longname) vf_count("tree:with-name-250..260", 1);
 	if (g.depth >= 3) vf_count("tree:depth>=3", 1);
 	vf_max("max:tree-depth", g.depth);
